@@ -83,12 +83,25 @@ func getField(img []byte, off int64, width int) uint64 {
 
 func (p *c10) Draw(t *rapid.T, tier string) *runner.Scenario {
 	lim := gen.Limits{MaxOps: 12, MaxPayload: 200, MaxTotal: 1500, NoCustom: true}
+	enumEvery := 80
+	if tier == "thorough" {
+		enumEvery = 12
+	}
+	// rapid biases integer draws to the ends of their range; hashing the draw makes
+	// this choice uniform
+	enumerate := scen.Mix(rapid.Uint64().Draw(t, "enumerate"))%uint64(enumEvery) == 0
+	if enumerate {
+		lim = gen.Limits{MaxOps: 6, MaxPayload: 40, MaxTotal: 200, NoCustom: true}
+	}
 	wl := gen.Workload(t, lim)
 	lay := DrawLayout(t, wl, rapid.Bool().Draw(t, "indexed"), rapid.IntRange(0, 3).Draw(t, "decorate") == 0)
 	spec := BuildSpec(wl, lay)
 	how := pick(t, "how", "field", "field", "field", "field", "truncate", "dup", "splice", "opcode", "random", "valid", "stream", "stream")
 	if h := os.Getenv("VERIF_C10_HOW"); h != "" {
 		how = h // development aid: force one mutation kind
+	}
+	if enumerate {
+		how = "enumerate"
 	}
 	streamDesc := ""
 	if how == "stream" {
@@ -449,11 +462,88 @@ func (p *c10) Check(sc *runner.Scenario, st *runner.Stats, pin string) *runner.V
 	}
 	in := ex.Input
 	kind := strings.SplitN(ex.How, " ", 2)[0]
+	if kind == "enumerate" && ex.Entry == "" {
+		return p.enumerate(sc, in, st, pin)
+	}
 	st.Inc("fault.stored_bytes." + kind)
 	st.DistinctCase(ex.How)
+	return p.runEntries(sc, &ex, nil, st, pin)
+}
+
+// enumerateValues are tried on EVERY framing field of the base file.
+var enumerateValues = []uint64{0, 8, 9, 1<<32 - 1, 1<<64 - 1}
+
+var enumerateEntries = map[string]bool{"lexer/default": true, "lexer/limits_validate": true, "reader/indexed0": true, "reader/info_random_access": true}
+
+// enumerate is the fault-enumeration part of C10: for one small valid file,
+// every framing field (record lengths, length prefixes, sizes; top level and inside
+// uncompressed chunks) is set to every value of enumerateValues and
+// to its own value -1, +1, and each resulting input goes through a fixed subset of
+// the entry points.
+func (p *c10) enumerate(sc *runner.Scenario, base []byte, st *runner.Stats, pin string) *runner.Violation {
+	f, err := refmcap.Decode(base, refmcap.DecodeOptions{})
+	if err != nil {
+		return nil
+	}
+	type fref struct {
+		fl   refmcap.Field
+		base int64
+		rec  string
+	}
+	var fields []fref
+	add := func(fl refmcap.Field, b int64, rec string) {
+		if fl.Kind == "reclen" || fl.Kind == "len" || fl.Kind == "size" {
+			fields = append(fields, fref{fl, b, rec})
+		}
+	}
+	for _, r := range f.Records {
+		for _, fl := range r.Fields {
+			add(fl, 0, refmcap.OpName(r.Op))
+		}
+		if c, ok := r.V.(*refmcap.Chunk); ok && c.Compression == "" {
+			for _, in := range c.Inner {
+				for _, fl := range in.Fields {
+					add(fl, c.RecordsOff, "Chunk>"+refmcap.OpName(in.Op))
+				}
+			}
+		}
+	}
+	st.Inc("probe.enumerated_files")
+	for _, fr := range fields {
+		off := fr.base + fr.fl.Off
+		cur := getField(base, off, fr.fl.Width)
+		vals := append([]uint64{cur - 1, cur + 1}, enumerateValues...)
+		for _, v := range vals {
+			mask := uint64(1)<<(8*uint(fr.fl.Width)) - 1
+			if fr.fl.Width == 8 {
+				mask = ^uint64(0)
+			}
+			if v&mask == cur {
+				continue
+			}
+			in := append([]byte{}, base...)
+			putField(in, off, fr.fl.Width, v)
+			ex := &c10Extra{Input: in, How: fmt.Sprintf("field %s.%s(%s)=%d", fr.rec, fr.fl.Name, fr.fl.Kind, v&mask)}
+			st.Inc("fault.stored_bytes.enumerated_field")
+			if viol := p.runEntries(sc, ex, enumerateEntries, st, pin); viol != nil {
+				return viol
+			}
+		}
+		st.DistinctCase("enumerate " + fr.rec + "." + fr.fl.Name)
+	}
+	return nil
+}
+
+// runEntries runs one input through the entry points (all, or the subset only).
+func (p *c10) runEntries(sc *runner.Scenario, exp *c10Extra, only map[string]bool, st *runner.Stats, pin string) *runner.Violation {
+	ex := *exp
+	in := ex.Input
 	heavy := 0 // entries that allocated more than 512 MiB for this input
 	for _, e := range c10Entries() {
 		if ex.Entry != "" && ex.Entry != e.name {
+			continue
+		}
+		if only != nil && ex.Entry == "" && !only[e.name] {
 			continue
 		}
 		if ex.Entry == "" && heavy >= 2 && !e.limited && !strings.HasPrefix(e.name, "parse/") {
